@@ -6,4 +6,4 @@ Extraction Language OCaml.
 Extraction "C02_model.ml"
   N.add N.mul N.div_eucl N.ltb N.leb N.eqb N.min len
   fs_new run st_rem frame_decode settings_verdict perr_code fserr_code
-  frame_outcome tail_code.
+  frame_outcome tail_code first_step fserr_code_ctl.
